@@ -1,6 +1,6 @@
 TITLE = "Joining on the time axis appends content and tempo; operands survive"
 IMPORTS = ["From Coquelicot Require Import Coquelicot.", "From Coq Require Import ZArith List Bool Reals.",
-           "From MV Require Import Base.Res Model.EventTree Model.TreeOps Model.Num Model.Envelope Model.Convert Proofs.TreeLemmas Proofs.Extend Proofs.Access Proofs.RNum Proofs.Join Proofs.JoinTempo.",
+           "From MV Require Import Base.Res Model.EventTree Model.TreeOps Model.Num Model.Envelope Model.Convert Proofs.TreeLemmas Proofs.Extend Proofs.Access Proofs.RNum Proofs.Join Proofs.JoinTempo Proofs.JoinHistory.",
            "Import ListNotations."]
 ENTRIES = [
  ("C12_add_sequences", "seq_add_spec", "adding two sequences: the first operand's children followed by the second's, same kind / tag / tempo"),
@@ -17,12 +17,15 @@ ENTRIES = [
  ("C12_concat_leaf_voice_rejected", "concat_leaf_voice_rejected", "a leaf as partner voice is rejected"),
  ("C12_padding", "pre_extend_spec", ""),
  ("C12_tempo_join_total", "join_total", "tempo: the join is defined for every pair of tempi"),
+ ("C12_join_keeps_invariant", "concat_index_inv", "a join by index of simultaneities of sequences succeeds and yields again a well-formed simultaneity of sequences whose duration is the sum"),
+ ("C12_join_history", "join_history", "hence any number of joins on one receiver (the history stream of the correspondence): always succeeds, the total is the sum of all operands' durations"),
  ("C12_tempo_follows_first_then_second", "join_spec", "the result's tempo follows the first operand's tempo up to its duration and the second's, shifted, afterwards (the joint itself is a jump)"),
  ("C12_tempo_at_joint", "join_at_joint", ""),
  ("C12_tempo_equal_constants", "join_trivial", "two equal constant tempi: nothing changes"),
  ("C12_tempo_last_point_needed", "join_last_positive_refuted", "model boundary: a first tempo whose last event has positive duration and ends exactly at the event's end is interpolated towards the second tempo (envelopes built from points always end with a zero-length point)"),
 ]
-EXTRA = """Print nontrivial. Print last_zero. Print zipjoin. Print padv. Print newv.
+EXTRA = """Print seqs. Print join_all. Print operand_ok. Print dur_sum.
+Print nontrivial. Print last_zero. Print zipjoin. Print padv. Print newv.
 (* "the second operand (and for '+', the first) still has its original content and tempo values": the model's
    operations are functions of their operands; on the implementation this is decided by the oracle of every
    run (snapshots of both operands before/after). Known findings: F7 (the tempo of a simultaneity itself is not
